@@ -2,9 +2,12 @@
     Statements only.  The model is Cassette/Bucket.v + Cassette/S3Store.v; a history is a list of
     (cassette configuration, call) pairs on one shared bucket whose initial content is arbitrary
     (foreign objects, residues of interrupted saves).  [qp]/[qp_dec] (quoted-printable for bytes
-    values), [loads] (json.loads), [compress]/[decompress] (zlib) are oracles; the three
-    round-trip facts about them are premises of the last theorem only. *)
-From Playback Require Import Base.Str Values.PyVal Values.Codec Values.JsonParse
+    values), [loads] (json.loads), [compress]/[decompress] (zlib) are oracles; the
+    round-trip facts about them are premises of C15_discoverable_complete only (the one about [loads] is
+    asked on the well-formed JSON trees [jwf], where the concrete parser satisfies it - unrestricted it
+    is satisfied by no function, see Properties/C07.v; C15_discoverable_complete_concrete instantiates
+    the concrete oracles and has no oracle premise left). *)
+From Playback Require Import Base.Str Values.PyVal Values.Codec Values.JsonWf Values.JsonParse Values.JsonFacts
   Cassette.Bucket Cassette.BucketFacts Cassette.S3Store Cassette.S3StoreFacts.
 Open Scope list_scope.
 
@@ -115,19 +118,21 @@ Print Assumptions C15_close_noop.
     objects.  If every discoverable recording is fetchable in the initial bucket, then it is so in
     EVERY bucket state that exists during the history: after each single bucket mutation of each
     save (i.e. whatever mutation a crash follows), and at the end — for all histories of calls by
-    any cassettes in which saves (of recordings in the serializer's faithful domain; re-saving an
-    id included) are made on [c]'s prefix or on a key-disjoint one ([key_disjoint]: decidable; holds
+    any cassettes in which saves (of recordings in the serializer's faithful domain [rec_wf] whose
+    floats / bytes are in the domain of the text oracles [rec_leaves_ok]; re-saving an id included) are made on [c]'s prefix or on a key-disjoint one ([key_disjoint]: decidable; holds
     for independent prefixes and also for "" / "a" and "a" / "a/b", fails only when one prefix
     continues the other with a component named full or metadata, e.g. "a" / "a/full"), and [c]'s own
     key space is not being cleaned up (close of a writable transient cassette — excluded by the property). *)
 Theorem C15_discoverable_complete :
   forall qp qp_dec loads compress decompress,
-    (forall b, qp_dec (qp b) = b) -> (forall j, loads (dumps j) = Some j) ->
+    (forall b, qp_dec (qp b) = b) -> (forall j, jwf j = true -> loads (dumps j) = Some j) ->
+    (forall b, is_bytes b = true -> str_ok (qp b) = true) ->
     (forall b, decompress (compress b) = Some b) ->
     forall c h st,
       Forall (fun ck =>
         match snd ck with
-        | CSave r _ | CSaveCrash r _ _ => rec_wf r = true /\ (np (fst ck) = np c \/ key_disjoint c (fst ck) = true)
+        | CSave r _ | CSaveCrash r _ _ =>
+            rec_wf r = true /\ rec_leaves_ok r = true /\ (np (fst ck) = np c \/ key_disjoint c (fst ck) = true)
         | CClose | CExit => c_read_only (fst ck) = true \/ c_transient (fst ck) = false \/ key_disjoint c (fst ck) = true
         | _ => True
         end) h ->
@@ -137,6 +142,29 @@ Theorem C15_discoverable_complete :
       discoverable_complete qp_dec loads decompress c (objs (run qp qp_dec loads compress decompress h st)).
 Proof. exact all_states_dc. Qed.
 Print Assumptions C15_discoverable_complete.
+
+(** The same for the concrete oracles of the correspondence runs (the JSON parser of
+    Values/JsonParse.v, the simple quoted-printable codec, identity zlib): their round-trip premises
+    are theorems (JsonFacts.loads_dumps, qp_simple_roundtrip, qp_simple_ok), none is left. *)
+Theorem C15_discoverable_complete_concrete :
+    forall c h st,
+      Forall (fun ck =>
+        match snd ck with
+        | CSave r _ | CSaveCrash r _ _ =>
+            rec_wf r = true /\ rec_leaves_ok r = true /\ (np (fst ck) = np c \/ key_disjoint c (fst ck) = true)
+        | CClose | CExit => c_read_only (fst ck) = true \/ c_transient (fst ck) = false \/ key_disjoint c (fst ck) = true
+        | _ => True
+        end) h ->
+      discoverable_complete qp_dec_simple loads (fun b => Some b) c (objs st) ->
+      Forall (fun st' => discoverable_complete qp_dec_simple loads (fun b => Some b) c (objs st'))
+             (all_states qp_simple qp_dec_simple loads (fun b => b) (fun b => Some b) h st) /\
+      discoverable_complete qp_dec_simple loads (fun b => Some b) c
+        (objs (run qp_simple qp_dec_simple loads (fun b => b) (fun b => Some b) h st)).
+Proof.
+  exact (all_states_dc qp_simple qp_dec_simple loads (fun b => b) (fun b => Some b)
+           qp_simple_roundtrip loads_dumps qp_simple_ok (fun b => eq_refl)).
+Qed.
+Print Assumptions C15_discoverable_complete_concrete.
 
 (** ------------------------------------------------------------------------------------------ *)
 (** Non-vacuity.  Concrete oracles (identity zlib, the concrete JSON parser), four cassettes on
@@ -162,9 +190,12 @@ Example C15_example_premises :
   key_disjoint (Cfg (U"") false true) ex_cA = true /\ key_disjoint ex_cA (Cfg (U"a/b") false true) = true /\
   key_disjoint ex_cA (Cfg (U"a/full") false true) = false /\
   rec_wf ex_r1 = true /\ rec_wf ex_r2 = true /\
+  (forall b, qp_dec_simple (qp_simple b) = b) /\ (forall j, jwf j = true -> loads (dumps j) = Some j) /\
+  (forall b, is_bytes b = true -> str_ok (qp_simple b) = true) /\
   Forall (fun ck =>
         match snd ck with
-        | CSave r _ | CSaveCrash r _ _ => rec_wf r = true /\ (np (fst ck) = np ex_roAB \/ key_disjoint ex_roAB (fst ck) = true)
+        | CSave r _ | CSaveCrash r _ _ =>
+            rec_wf r = true /\ rec_leaves_ok r = true /\ (np (fst ck) = np ex_roAB \/ key_disjoint ex_roAB (fst ck) = true)
         | CClose | CExit => c_read_only (fst ck) = true \/ c_transient (fst ck) = false \/ key_disjoint ex_roAB (fst ck) = true
         | _ => True
         end) ex_h /\
@@ -175,8 +206,10 @@ Proof.
   assert (I'' : key_disjoint ex_roAB ex_roA = true) by (vm_compute; reflexivity).
   split; [exact I|]. split; [vm_compute; reflexivity|]. split; [vm_compute; reflexivity|].
   split; [vm_compute; reflexivity|]. split; [vm_compute; reflexivity|].
-  split; [vm_compute; reflexivity|]. split; [vm_compute; reflexivity|]. split.
-  - unfold ex_h. repeat (apply Forall_cons; [cbn [snd fst]; auto; try (split; [vm_compute; reflexivity|auto])|]).
+  split; [vm_compute; reflexivity|]. split; [vm_compute; reflexivity|].
+  split; [exact qp_simple_roundtrip|]. split; [exact loads_dumps|]. split; [exact qp_simple_ok|]. split.
+  - unfold ex_h. repeat (apply Forall_cons; [cbn [snd fst]; auto;
+                                             try (split; [vm_compute; reflexivity|split; [vm_compute; reflexivity|auto]])|]).
     apply Forall_nil.
   - apply dc_no_metadata. intros id. unfold b_has, ex_st0. cbn [objs b_get].
     destruct (str_eqb _ _) eqn:E1.
